@@ -180,6 +180,25 @@ def p2(ctx):
                             kinds = [_layer_kind(y) for y in srcs]
                             if sel and kinds == ['defaults', 'stored', 'arguments']:
                                 res['layering'] = True
+                                # the stored layer is everything the table holds: a filter by known names drops the
+                                # disk_* settings of custom Disk classes (and with them every stored key)
+                                for t_ in tr[:fors[-1].seq]:
+                                    if t_.kind == 'TEST' and t_.d['val'].k in ('cmp',) and \
+                                            t_.d['val'].a[0] in (('In',), ('NotIn',)):
+                                        l_, r_ = t_.d['val'].a[1]
+                                        against_names = any(x.k == 'modconst' and 'SETTINGS' in x.a[1] or
+                                                            (x.is_const and isinstance(x.val, dict) and 'size_limit' in x.val)
+                                                            for x in values_in(r_))
+                                        from_stored = False
+                                        for y in values_in(l_):
+                                            if y.k in ('rows', 'row', 'dictof'):
+                                                from_stored = True
+                                            if y.k == 'mcall' and y.a[0] in ('items', 'keys') and isinstance(y.a[1], int):
+                                                rv_ = tr[y.a[1]].d.get('recv')
+                                                if rv_ is not None and _layer_kind(rv_) == 'stored':
+                                                    from_stored = True
+                                        if against_names and from_stored:
+                                            res['layering'] = 'FILTERED'
                             if strip:
                                 res['metadata-stripped'] = True
         if p.kind in ('return', 'next'):
@@ -381,6 +400,7 @@ def format_facts(ctx):
         except ValueError:
             ds[k.value] = None
     facts['setting_names'] = sorted(names)
+    facts['_all_setting_names'] = sorted(names)
     facts['sqlite_journal_mode'] = ds.get('sqlite_journal_mode')
     facts['sqlite_synchronous_not_off'] = ds.get('sqlite_synchronous') not in (0, '0', 'OFF', 'off', None)
     facts['metadata_names'] = sorted(const('METADATA'))
@@ -491,7 +511,7 @@ def format_facts(ctx):
     ff = ctx.method('Disk', 'filename')
     src = ast.unparse(ff.node)
     facts['filename'] = {
-        'random_bytes': _int_arg(ff.node, 'urandom'),
+        'random_bytes': _entropy_bytes(ctx, ff),
         'suffix': [n.value for n in ast.walk(ff.node) if isinstance(n, ast.Constant) and isinstance(n.value, str)
                    and n.value.startswith('.')][:1],
         'slices': sorted(ast.unparse(n.slice) for n in ast.walk(ff.node) if isinstance(n, ast.Subscript)),
@@ -544,6 +564,23 @@ def _filename_relative(ctx):
     return ok
 
 
+def _entropy_bytes(ctx, ff):
+    """Bytes of OS entropy a value-file name is made of: os.urandom(n), secrets.token_hex/token_bytes(n) or
+    uuid.uuid4() (16).  A process-level PRNG (random.Random, random.getrandbits ...) is not fork-safe: parent and
+    child would produce the same names - it gives None, which does not match the released format."""
+    for n in ast.walk(ff.node):
+        if isinstance(n, ast.Call):
+            full = ctx.prog.resolve_name(ff.module, dotted(n.func) or '')
+            if full in ('os.urandom', 'secrets.token_hex', 'secrets.token_bytes') and n.args:
+                try:
+                    return ctx.fold(n.args[0], ff.module)
+                except ValueError:
+                    return None
+            if full == 'uuid.uuid4':
+                return 16
+    return None
+
+
 def _int_arg(node, fname):
     for n in ast.walk(node):
         if isinstance(n, ast.Call) and (dotted(n.func) or '').endswith(fname) and n.args and isinstance(n.args[0], ast.Constant):
@@ -583,6 +620,11 @@ def p3(ctx):
     with open(REFERENCE) as f:
         ref = json.load(f)
     facts = json.loads(json.dumps(format_facts(ctx)))
+    # a new setting is compatible with released directories (its row is simply inserted with the default): only
+    # the released names have to survive
+    facts.pop('_all_setting_names', None)
+    facts['setting_names'] = sorted(set(facts['setting_names']) & set(ref.get('setting_names', []))) \
+        if set(ref.get('setting_names', [])) <= set(facts['setting_names']) else facts['setting_names']
     a, b = {}, {}
     _flatten('', ref, a)
     _flatten('', facts, b)
